@@ -64,39 +64,32 @@ func VerifyFunction(p *Prog, fn *ssa.Function, c *Contract) (vc *VC) {
 		f.freeVars = append(f.freeVars, v)
 	}
 	// captured variables that provably hold one known function (local helper closures)
-	if fn.Parent() != nil {
-		for _, b := range fn.Parent().Blocks {
-			for _, in := range b.Instrs {
-				mc, ok := in.(*ssa.MakeClosure)
-				if !ok || mc.Fn != fn {
-					continue
-				}
-				for i, bnd := range mc.Bindings {
-					al, ok := bnd.(*ssa.Alloc)
-					if !ok || i >= len(f.freeVars) {
-						continue
-					}
-					var stored *ssa.Function
-					nStores := 0
-					for _, ref := range *al.Referrers() {
-						if st, ok := ref.(*ssa.Store); ok && st.Addr == al {
-							nStores++
-							switch v := st.Val.(type) {
-							case *ssa.MakeClosure:
-								stored = v.Fn.(*ssa.Function)
-							case *ssa.Function:
-								stored = v
-							}
-						}
-					}
-					if nStores == 1 && stored != nil && !vc.cellWrittenElsewhere(al, fn.Parent()) {
-						if vc.cellFns == nil {
-							vc.cellFns = map[string]*ssa.Function{}
-						}
-						vc.cellFns[f.freeVars[i].T.S] = stored
-					}
+	for i := range fn.FreeVars {
+		if i >= len(f.freeVars) {
+			break
+		}
+		al, owner := resolveCaptured(fn, i)
+		if al == nil {
+			continue
+		}
+		var stored *ssa.Function
+		nStores := 0
+		for _, ref := range *al.Referrers() {
+			if st, ok := ref.(*ssa.Store); ok && st.Addr == al {
+				nStores++
+				switch v := st.Val.(type) {
+				case *ssa.MakeClosure:
+					stored = v.Fn.(*ssa.Function)
+				case *ssa.Function:
+					stored = v
 				}
 			}
+		}
+		if nStores == 1 && stored != nil && !vc.cellWrittenElsewhere(al, owner) {
+			if vc.cellFns == nil {
+				vc.cellFns = map[string]*ssa.Function{}
+			}
+			vc.cellFns[f.freeVars[i].T.S] = stored
 		}
 	}
 	// captured cells are pairwise distinct
@@ -335,6 +328,30 @@ func (vc *VC) alsoScope(f *Frame, ft *Contract, results []Value) *Scope {
 
 // cellWrittenElsewhere: is the captured variable assigned inside any closure?
 func (vc *VC) cellWrittenElsewhere(al *ssa.Alloc, parent *ssa.Function) bool {
+	var all []*ssa.Function
+	var collect func(g *ssa.Function)
+	collect = func(g *ssa.Function) {
+		for _, a := range g.AnonFuncs {
+			all = append(all, a)
+			collect(a)
+		}
+	}
+	collect(parent)
+	for _, anon := range all {
+		for k := range anon.FreeVars {
+			if a2, _ := resolveCaptured(anon, k); a2 == al {
+				for _, ref := range *anon.FreeVars[k].Referrers() {
+					if st, ok := ref.(*ssa.Store); ok && st.Addr == anon.FreeVars[k] {
+						return true
+					}
+				}
+			}
+		}
+	}
+	return false
+}
+
+func (vc *VC) cellWrittenElsewhereOld(al *ssa.Alloc, parent *ssa.Function) bool {
 	for _, anon := range parent.AnonFuncs {
 		for i, fv := range anon.FreeVars {
 			_ = i
@@ -357,4 +374,32 @@ func (vc *VC) cellWrittenElsewhere(al *ssa.Alloc, parent *ssa.Function) bool {
 		}
 	}
 	return false
+}
+
+// resolveCaptured follows free variable i of closure fn up to the local variable
+// (Alloc) of the enclosing function that it captures.
+func resolveCaptured(fn *ssa.Function, i int) (*ssa.Alloc, *ssa.Function) {
+	parent := fn.Parent()
+	if parent == nil {
+		return nil, nil
+	}
+	for _, b := range parent.Blocks {
+		for _, in := range b.Instrs {
+			mc, ok := in.(*ssa.MakeClosure)
+			if !ok || mc.Fn != fn || i >= len(mc.Bindings) {
+				continue
+			}
+			switch bnd := mc.Bindings[i].(type) {
+			case *ssa.Alloc:
+				return bnd, parent
+			case *ssa.FreeVar:
+				for k, fv := range parent.FreeVars {
+					if fv == bnd {
+						return resolveCaptured(parent, k)
+					}
+				}
+			}
+		}
+	}
+	return nil, nil
 }
